@@ -20,7 +20,7 @@ func vCritical(mon *vMon, id int) {
 	mon.inside--
 }
 
-//verif:harness prop=C13 name=fifo_mutex_exclusion threads=3 preempt=2 t_preempt=3 unwind=8 witness=lenient
+//verif:harness prop=C13 name=fifo_mutex_exclusion threads=3 sched=delay preempt=3 t_preempt=5 unwind=8 witness=lenient
 func VerifFifoMutexExclusion() {
 	m := New()
 	mon := &vMon{}
@@ -49,7 +49,7 @@ func VerifFifoMutexExclusion() {
 
 // ---- fifo.Mutex: grant order = arrival order (arrival confirmed by quiescence: the waiter is blocked) ---------------
 
-//verif:harness prop=C13 name=fifo_mutex_order threads=4 preempt=2 unwind=8 witness=lenient
+//verif:harness prop=C13 name=fifo_mutex_order threads=4 sched=delay preempt=3 t_preempt=5 unwind=8 witness=lenient
 func VerifFifoMutexOrder() {
 	m := New()
 	mon := &vMon{}
@@ -83,7 +83,7 @@ type vMapMon struct {
 	key    [3]int
 }
 
-//verif:harness prop=C13 name=fifo_map threads=4 preempt=2 t_preempt=3 unwind=8 witness=lenient
+//verif:harness prop=C13 name=fifo_map threads=4 sched=delay preempt=3 t_preempt=5 unwind=8 witness=lenient
 func VerifFifoMap() {
 	fm := NewMap[int]().(*fifoMap[int])
 	mon := &vMapMon{}
